@@ -687,11 +687,24 @@ def _pool_builder_is_partition(ctx, bf: FuncInfo):
     for n in own_walk(fn):
         if isinstance(n, ast.For) and any(x is ap for x in ast.walk(n)):
             loop = n
-    if loop is None or not isinstance(loop.target, ast.Name):
+    if loop is None:
         return None, f"{bf.name}: the appending loop is not recognised"
-    if norm(loop.iter) not in (g, f"{g}.nodes", f"{g}.nodes()", f"list({g})", f"sorted({g})", f"sorted({g}.nodes)", f"list({g}.nodes)"):
-        return False, f"{bf.name}: the appending loop does not run over every node of the graph"
-    if len(ap.args) != 1 or norm(ap.args[0]) != loop.target.id:
+    it_txt = norm(loop.iter)
+    node_var = None
+    if isinstance(loop.target, ast.Name):
+        if it_txt not in (g, f"{g}.nodes", f"{g}.nodes()", f"list({g})", f"sorted({g})", f"sorted({g}.nodes)", f"list({g}.nodes)", f"{g}.nodes.keys()"):
+            return False, f"{bf.name}: the appending loop does not run over every node of the graph"
+        node_var = loop.target.id
+    elif isinstance(loop.target, ast.Tuple) and len(loop.target.elts) == 2 and isinstance(loop.target.elts[0], ast.Name):
+        # (node, attributes) pairs of every node
+        import re as _re
+        if not (it_txt in (f"{g}.nodes.items()", f"{g}.nodes(data=True)", f"{g}.nodes.data()", f"{g}.nodes.data(True)", f"sorted({g}.nodes(data=True))", f"sorted({g}.nodes.items())")
+                or _re.fullmatch(rf"{_re.escape(g)}\.nodes\.data\(\w+\)", it_txt) or _re.fullmatch(rf"{_re.escape(g)}\.nodes\(data=\w+\)", it_txt)):
+            return None, f"{bf.name}: the appending loop runs over `{it_txt}`, which this rule does not read as (node, data) pairs of every node"
+        node_var = loop.target.elts[0].id
+    else:
+        return None, f"{bf.name}: the appending loop is not recognised"
+    if len(ap.args) != 1 or norm(ap.args[0]) != node_var:
         return False, f"{bf.name}: what is appended is not the node itself"
     # unconditional in the loop body
     for st in loop.body:
